@@ -323,6 +323,7 @@ func runRound(rp roundPlan) {
 	checkSharedLoggers(rp)
 	loggerRegistryPhase(rp)
 	cronLoggerPhase(rp)
+	cronBackendPhase(rp)
 	parserCrossPhase(rp)
 	for g := 0; g < rp.G; g++ {
 		per := map[int][2]int{} // k -> (conclusive, with >= 16 goroutines active)
@@ -395,6 +396,7 @@ func TestCheck(t *testing.T) {
 		"dec = the document produced by the reference run decrypted again concurrently (bit-identical input); sym = EncryptSymmetric/DecryptSymmetric or crypto.Encrypt/Decrypt over all 19 symmetric names with own key/nonce/AAD, with tampered tags; asym = the 5 RSA encryption names and 10 signature names with per-goroutine jwk keys; keys = SerializeKey/ParseKey/pem round trips; cron = ParseStandard and 6 custom parsers over valid and invalid specs, descriptors and TZ prefixes; log = logger.NewLogger under fresh distinct names (JSON and text output into an own buffer, lines compared without time) and under names shared by several goroutines (same instance), cron.PrintfLogger/VerbosePrintfLogger; pool = byteslicepool Get/Resize/Put cycles on 3 shared and per-goroutine pools under the ownership monitor; every slice is Put filled with its owner's non-zero stamp, and a Get that returns a backing array the monitor saw Put before (same element-0 address; the monitor pins every array it tracks) must show zeros in the first L bytes (L = length at the last Put) both through b[:cap(b)] and through Resize(b, L) - also run as a 48-step one-goroutine Get/fill/Put loop at the start of every round. "+
 		"After the pipelines of a round a registry phase runs: one goroutine calls logger.ApplyOptionsToLoggers 5 times (seeded level/JSON/app id) while 6 goroutines look up existing names and fresh names (own and common ones) with logger.NewLogger, 5 look-ups per Apply, started when that Apply starts; judged: valid options accepted, loggers registered before an Apply started have its level when it returned, the applier's own buffer-backed loggers write JSON/text and the app id as applied, equal names give one instance; defaults are re-applied at the end. "+
 		"Then a cron-logger phase: 4-8 independent cron.PrintfLogger/VerbosePrintfLogger instances over sinks of their own are handed the same 3-5 caller-owned keysAndValues slices (time.Time in several zones, strings, ints, durations, errors; with and without spare capacity) in the spread form of Info and Error - solo on private copies (reference lines), sequentially (A logs, slice element-wise identical to its snapshot, B's lines as solo) and from goroutines all at once, 3 repetitions (lines as solo, slices intact afterwards, no race report: the harness only reads them). "+
+		"Then cron loggers over Printf back-ends that keep what they are given: 6-9 independent PrintfLogger/VerbosePrintfLogger instances each log 3-6 Info+Error messages of their own into an immediate, a retaining (keeps format and the args slice as given, formats at the end) or an asynchronous back-end (queues them to a goroutine that formats later) - alone (reference lines), sequentially (A logs into a keeping back-end, B logs, A's records are formatted: as alone) and all at once from goroutines (every back-end's lines as alone; no race report). "+
 		"Then a separate-parsers phase: ParseStandard and five Parsers (seconds-first, SecondOptional, Minute|Hour, Descriptor-only, DowOptional) parse the same 8 seeded specs (2/4/5/6 numeric fields valid in every position, TZ=/CRON_TZ= prefixes, descriptors and @every); every text has a run pattern of blanks and tabs between its fields that no parse of the process has seen before, so the expectation for (parser, spec) is the parser's solo result on an equivalent fresh text (accepted/refused, bit sets, Location, Next at 3 instants); judged: B parsing a text right after A parsed the same text (all ordered pairs over the rounds), a parse after the caller changed Location/Minute/Hour of the schedule it got back, schedules retained from descriptor parses under 6 TZ prefixes re-queried after sequential and after 24-goroutine concurrent parses. "+
 		"distinct = distinct pipeline descriptions; non-trivial = at least one of its concurrent runs started while >= 16 goroutines of the round were active. Both builds (-race 'main', 'plain') run the same plan; counters prefixed main./plain. split them.")
 	rec.Note("require", []string{"main.pipelines", "plain.pipelines", "gomaxprocs.2.rounds", "gomaxprocs.4.rounds", "gomaxprocs.16.rounds",
@@ -405,7 +407,8 @@ func TestCheck(t *testing.T) {
 		"log.registry.applies", "log.registry.lookups_fresh_names", "log.registry.lookups_existing_names", "main.log.registry.fresh_inserts_during_apply", "plain.log.registry.fresh_inserts_during_apply",
 		"log.registry.loggers_level_checked", "log.registry.own_logger_lines_checked", "cron.new_addfunc_calls", "tz.same_as_alone.real_work", "tz.specs_with_fresh_zone_names_parsed", "tz.invalid_zone_names", "tz.via.0", "tz.via.1", "tz.via.2", "tz.via.3",
 		"pipelines.reference_run_after_the_concurrent_phase", "pool.fresh_size_cycles",
-		"main.cronlog.shared_args.sequential_checks", "plain.cronlog.shared_args.sequential_checks", "main.cronlog.shared_args.concurrent_outputs_compared", "plain.cronlog.shared_args.concurrent_outputs_compared", "cronlog.shared_args.intact_checks",
+		"main.cronlog.shared_args.sequential_checks", "plain.cronlog.shared_args.sequential_checks", "main.cronlog.shared_args.concurrent_outputs_compared", "plain.cronlog.shared_args.concurrent_outputs_compared", "cronlog.shared_args.intact_checks", "main.cronlog.backends.sequential_checks", "plain.cronlog.backends.sequential_checks", "main.cronlog.backends.concurrent_checks", "plain.cronlog.backends.concurrent_checks",
+		"cronlog.backends.concurrent_checks.retaining", "cronlog.backends.concurrent_checks.asynchronous", "cronlog.backends.concurrent_checks.immediate",
 		"cronparsers.solo_accepted", "cronparsers.solo_refused", "main.cronparsers.cross_order_checks", "plain.cronparsers.cross_order_checks", "main.cronparsers.caller_mutation_checks", "plain.cronparsers.caller_mutation_checks",
 		"main.cronparsers.sequential_descriptor_requeries", "plain.cronparsers.sequential_descriptor_requeries", "main.cronparsers.concurrent_descriptor_requeries", "plain.cronparsers.concurrent_descriptor_requeries",
 		"enc.invalid_documents_same_error", "enc.unwrap_callback_pauses", "enc.streamed_decrypts", "enc.len.around_512_header_step", "enc.len.around_64KiB_boundary",
